@@ -335,6 +335,13 @@ public:
 		write(*x, x.length());
 		return *this;
 	}
+
+	Socket& operator<<(const Array<String>& x) // the characters of each string, not the String objects
+	{
+		for (int i = 0; i < x.length(); i++)
+			*this << x[i];
+		return *this;
+	}
 	/**
 	Reads n bytes from the socket a string
 	*/
